@@ -33,6 +33,9 @@ type c05Scenario struct {
 	// burst mode: close the connection and reconnect (which resets the tracker) from another
 	// goroutine after this many microseconds, while handlers are still working through the burst
 	ReconnectAfterUS int `json:"reconnect_after_us"`
+	// the client starts untracked, sees a few lines that mean nothing to a tracker (a stranger's NICK, a
+	// message), and only then has state tracking switched on - on the live connection, on no channel yet
+	LateTracking bool `json:"late_tracking"`
 }
 
 var c05Verbs = []string{"JOIN", "PART", "KICK", "QUIT", "NICK", "MODE", "TOPIC", "353", "352", "324", "332", "366", "315", "329", "333"}
@@ -140,6 +143,7 @@ type c05Obs struct {
 	exit    string // foreground, burst mode: the tracker as seen just before the handler returned
 	hasExit bool
 	closing bool // the harness had already begun to close the connection when the handler started
+	meVsGet string // non-empty: Me() and GetNick(Me().Nick) disagreed inside the handler
 }
 
 func runC05(sc *c05Scenario) (nontrivial bool, v *Violation) {
@@ -148,7 +152,7 @@ func runC05(sc *c05Scenario) (nontrivial bool, v *Violation) {
 		return false, v
 	}
 	nicks, chans := c05Universe()
-	tc := newTestClient(cliOpts{Flood: true, Tracking: true, Nick: "me"})
+	tc := newTestClient(cliOpts{Flood: true, Tracking: !sc.LateTracking, Nick: "me"})
 	defer tc.shutdown()
 	var mu sync.Mutex
 	var obs []c05Obs
@@ -163,6 +167,12 @@ func runC05(sc *c05Scenario) (nontrivial bool, v *Violation) {
 				}
 				o := c05Obs{k: k, bg: bg, h: h, closing: closing.Load()}
 				o.snap = snapTracker(c.StateTracker(), nicks, chans)
+				if me := c.Me(); me != nil {
+					// two views of the same nick: the client's own and the tracker's by name
+					if g := c.StateTracker().GetNick(me.Nick); g == nil || fmtNick(g) != fmtNick(me) {
+						o.meVsGet = fmt.Sprintf("Me()=%s GetNick(%q)=%s", fmtNick(me), me.Nick, fmtNick(g))
+					}
+				}
 				if !bg && sc.Burst && len(sc.Delays) > 0 {
 					if d := sc.Delays[(k+h)%len(sc.Delays)]; d > 0 {
 						time.Sleep(time.Duration(d) * time.Microsecond)
@@ -187,6 +197,15 @@ func runC05(sc *c05Scenario) (nontrivial bool, v *Violation) {
 		return false, violationf("C05", "connect: %v", err)
 	}
 	conn := tc.conn()
+	if sc.LateTracking {
+		conn.SendLine(":zed!u@h NICK zed2")
+		conn.SendLine(":zed2!u@h PRIVMSG me :hello")
+		conn.SendLine(":irc.server MODE me +i")
+		if !tc.syncIn(stallTimeout()) {
+			return false, violationf("C05", "prelude never delivered")
+		}
+		tc.C.EnableStateTracking()
+	}
 	if sc.Burst {
 		var b strings.Builder
 		for k, l := range lines {
@@ -248,6 +267,9 @@ func runC05(sc *c05Scenario) (nontrivial bool, v *Violation) {
 			// dispatched need not see all its predecessors applied: only stability (above) is checked
 			continue
 		}
+		if o.meVsGet != "" {
+			return changed > 0, &Violation{Property: "C05", Msg: fmt.Sprintf("handler %d for line %d %q: the client's Me() does not reflect the line although the tracker's own record of that nick does: %s", o.h, o.k, lines[o.k], o.meVsGet)}
+		}
 		if o.snap != ref[o.k] {
 			kind := "foreground"
 			if o.bg {
@@ -276,6 +298,7 @@ func TestC05(t *testing.T) {
 	defer finish(t, col)
 	rapid.Check(t, func(t *rapid.T) {
 		sc := &c05Scenario{Net: *genC13(t), Burst: rapid.Bool().Draw(t, "burst"), NFG: rapid.IntRange(1, 3).Draw(t, "nfg"), NBG: rapid.IntRange(0, 2).Draw(t, "nbg")}
+		sc.LateTracking = rapid.IntRange(0, 3).Draw(t, "late_tracking") == 0
 		if sc.Burst && rapid.IntRange(0, 2).Draw(t, "reconnect") == 1 {
 			sc.ReconnectAfterUS = rapid.SampledFrom([]int{1, 50, 300, 1000, 3000}).Draw(t, "reconnect_after_us")
 		}
@@ -284,7 +307,7 @@ func TestC05(t *testing.T) {
 		}
 		nt, v := runC05(sc)
 		b, _ := json.Marshal(sc)
-		col.Case(string(b), nt, fmt.Sprintf("burst=%v", sc.Burst), fmt.Sprintf("nbg=%d", sc.NBG), fmt.Sprintf("reconnect_during_burst=%v", sc.ReconnectAfterUS > 0))
+		col.Case(string(b), nt, fmt.Sprintf("burst=%v", sc.Burst), fmt.Sprintf("nbg=%d", sc.NBG), fmt.Sprintf("reconnect_during_burst=%v", sc.ReconnectAfterUS > 0), fmt.Sprintf("late_tracking=%v", sc.LateTracking))
 		if len(sc.Net.Events) <= 10 {
 			col.Sample(sc)
 		}
